@@ -165,6 +165,12 @@ def evaluate(ctx, srcs, others, cli, count=True, stall=10.0):
         return dict(zip(order, got))
 
     p2 = batch(lambda i: L0[i])
+    # the same compilations in processes whose ENVIRONMENT differs (locale, time zone, home, build / debug variables)
+    vlib.EXTRA_ENV = OTHER_ENV
+    try:
+        pe = batch(lambda i: L0[i])
+    finally:
+        vlib.EXTRA_ENV = None
     p3 = batch(lambda i: L0[i], order=list(reversed(live)))
     d1 = batch(lambda i: "entry_compile\t%s\t1" % enc[i])
     m0 = batch(lambda i: "entry_to_midi\t%s\t0" % enc[i])
@@ -192,6 +198,8 @@ def evaluate(ctx, srcs, others, cli, count=True, stall=10.0):
         if got != want:
             bad(i, what, case, got, want)
 
+    for i in live:
+        same(i, "environment: compile() in a process with other environment variables differs", L0[i], pe[i], p1[i])
     for i in live:
         s, ref = srcs[i], p1[i]
         info["ref"][i] = ref
@@ -306,6 +314,20 @@ def shrink(ctx, src, other, what, cli, budget=120):
     return cur
 
 
+OTHER_ENV = {"BUILD_NUMBER": "7", "LANG": "ja_JP.UTF-8", "LC_ALL": "C", "LANGUAGE": "ja", "TZ": "Asia/Tokyo", "HOME": "/nonexistent", "USER": "someone",
+             "SAKURA_DEBUG": "1", "SAKURA_LANG": "ja", "DEBUG": "1", "RUST_LOG": "trace", "COLUMNS": "40", "CARGO_PKG_VERSION": "9.9.9", "SOURCE_DATE_EPOCH": "1"}
+
+
+def variable_names():
+    """every built-in variable / constant name of the implementation (init_variables), read from /repo on every run"""
+    repo = os.environ.get("SAKURA_REPO", "/repo")
+    try:
+        text = open(os.path.join(repo, "src", "mml_def.rs"), encoding="utf-8").read()
+    except OSError:
+        return []
+    return list(dict.fromkeys(re.findall(r'var\.insert\(\s*(?:String::from\(|")\s*"?([A-Za-z_][A-Za-z0-9_.]*)"', text)))
+
+
 def gen_sources(ctx):
     rng = ctx.rng
     scale = 4 if ctx.tier == "quick" else 40
@@ -314,6 +336,11 @@ def gen_sources(ctx):
     if os.path.exists(p):
         srcs += [(json.loads(l)["src"], "corpus") for l in open(p, encoding="utf-8") if l.strip()]
     srcs += [(s, "random_fixed") for s in RANDOM_SOURCES]
+    # every built-in variable, where its value reaches the log and the bytes
+    names = variable_names()
+    for i in range(0, len(names), 6):
+        grp = names[i:i + 6]
+        srcs.append(("".join("PRINT(%s)\n" % n for n in grp) + "".join("TrackName(%s) " % n for n in grp) + "cde", "builtin_variables"))
     samples = mmlgen.samples()
     srcs += [(s, "samples") for s in samples]
     for _ in range(24 * scale):
